@@ -391,6 +391,39 @@ fn heat_capacity_random(m: &mut Monitor, cfg: &Config) {
         m.check(&name, &format!("{kind}|cp closed form"), 1_000_000 + i, crate::fd::serr(cp, expect, 0.0), 1e-6, move || {
             json!({"ideal_gas": igj, "T": t, "x": xx, "cp_from_helmholtz": cp, "cp_closed_form": expect})
         });
+        // temperature derivatives of the ideal-gas part at third order of the Helmholtz energy:
+        // dc_v/dT = dc_p/dT and d2S/dT2 = N (dc_v/dT / T - c_v / T^2), against central differences
+        // (Richardson) of the closed form
+        {
+            // the Joback implementation evaluates the polynomial with the 2014 gas constant and
+            // rescales to the current one (3.4e-7; inside the 1e-6 of the c_p clause, but amplified
+            // in the temperature derivative, so it is mirrored here)
+            let ratio = if ig.kind == 0 { R_SI / (6.022140857 * 1.38064852) } else { 1.0 };
+            let cpc = |t: f64| -> f64 { ratio * (0..nc).map(|k| x[k] * ig.cp_closed_form(k, t)).sum::<f64>() };
+            // five-point stencil at two step sizes; their difference is the error bar
+            let d = |h: f64| (-cpc(t + 2.0 * h) + 8.0 * cpc(t + h) - 8.0 * cpc(t - h) + cpc(t - 2.0 * h)) / (12.0 * h);
+            let h = 2e-3 * t;
+            let dcp = d(h);
+            let err = (d(h) - d(2.0 * h)).abs().max(1e-14 * cpc(t).abs() / h);
+            let eos = Arc::new(EquationOfState::ideal_gas(model.clone()));
+            let nn = Moles::from_reduced(Array1::from_vec(x.to_vec()));
+            if let Ok(st) = State::new_nvt(&eos, Temperature::from_reduced(t), Volume::from_reduced(1000.0), &nn) {
+                let r = RGAS.convert_to(JOULE / (MOL * KELVIN));
+                let dcv = st.dc_v_dt(Contributions::IdealGas).convert_to(JOULE / (MOL * KELVIN * KELVIN));
+                let scale = cpc(t).abs() / t;
+                if err < 1e-8 * scale {
+                    let name = format!("cp_ig:{kind} dc_v/dT vs closed form");
+                    m.check(&name, &format!("{kind}|dcv_dt closed form"), 1_000_000 + i, (dcv - dcp).abs() / scale, 1e-6, || json!({"T": t, "dc_v_dt": dcv, "closed form": dcp, "error bar": err}));
+                    let ntot = st.total_moles.convert_to(MOL);
+                    let d2s = st.d2s_dt2(Contributions::IdealGas).convert_to(JOULE / (KELVIN * KELVIN * KELVIN));
+                    let expect2 = ntot * (dcp / t - (cpc(t) - r) / (t * t));
+                    let name = format!("cp_ig:{kind} d2S/dT2 vs closed form");
+                    m.check(&name, &format!("{kind}|d2s_dt2 closed form"), 1_000_000 + i, (d2s - expect2).abs() / (ntot * scale / t), 1e-6, || json!({"T": t, "d2s_dt2": d2s, "closed form": expect2}));
+                } else {
+                    m.skip("cp_ig:dc_v/dT", "closed-form difference quotient unresolved");
+                }
+            }
+        }
         // the model's own correlation function
         let own = match &*model {
             IdealGasModel::Joback(j) => j
